@@ -671,7 +671,7 @@ func runC06(c *Ctx) {
 			})
 		}
 	}
-	c.floor("C06-R5", 4)
+	c.floor("C06-R5", 3)
 
 	// ---- R6 lockset
 	c.rule("C06-R6", "LCK: the failure-tracker table and authFailureTracker.{failures,lastFailure,lockedUntil} are accessed only with the middleware's mutex held (helpers receiving the mutex as a parameter are resolved through their callers); reads consumed only by log output are listed, not reported")
